@@ -448,7 +448,7 @@ fn case(tape: &[u16]) -> Case {
     let fail_at = if t.chance(1, 3) { Some(t.pick(n + 1)) } else { None };
     for i in 0..n {
         if fail_at == Some(i) {
-            let fails: &[(&str, bool)] = &[("nope_undefined", false), ("1 + \"x\"", false), ("[1, 2][0]()", false), ("zz = (((", true), ("output never_bound", false), ("sum = 3", false), ("inputs = 1", false), ("x = = 2", true), ("{a: 1}.a.b", false)];
+            let fails: &[(&str, bool)] = &[("nope_undefined", false), ("1 + \"x\"", false), ("[1, 2][0]()", false), ("zz = (((", true), ("output never_bound", false), ("sum = 3", false), ("inputs = 1", false), ("x = = 2", true), ("{a: 1}.a.b", false), ("output fs = [x => nope_helper(x)]", false), ("output fr = {k: [1, {f: y => y + nope_unbound}]}", false), ("output fd = z => nope_unbound(z)", false)];
             let (txt, parse) = fails[t.pick(fails.len())];
             stmts.push(Stmt::Fail(txt.to_string(), parse));
             continue;
